@@ -131,7 +131,10 @@ def valuation(recipe, suffix):
 _WORK, _WORK2 = [], []   # ONE list object per process, refilled in place for every model (a user's work list)
 
 
-def observe_model(recipe, val, reverse=False, redeclare=False):
+_SOLVER_ARG = itertools.count(3)   # every prefix solve uses solver arguments nobody used before in this process
+
+
+def observe_model(recipe, val, reverse=False, redeclare=False, solver_args=False):
     """fresh expression / variable objects every time, handed over in a reused list object; returns {obs: value | exception}"""
     import warnings
     from optyx import Problem
@@ -179,14 +182,24 @@ def observe_model(recipe, val, reverse=False, redeclare=False):
     def solve():
         p = Problem().minimize(e)
         ms, ls = stubs.MinimizeStub("fixed"), stubs.LinprogStub("fixed")
+        kw = {}
+        if solver_args:
+            # a prefix model is solved with explicit solver arguments (an iteration cap, a tolerance)
+            k_ = next(_SOLVER_ARG)
+            kw = dict(maxiter=k_, tol=1.0 / (k_ + 1))
         with stubs.patched(ms, ls), warnings.catch_warnings():
             warnings.simplefilter("ignore")
-            p.solve()
+            p.solve(**kw)
         pv = [v.name for v in p.variables]
         xs = np.empty(len(pv), dtype=object)
         for i, n in enumerate(pv):
             xs[i] = val.get(n, 0.0)
         res = [("vars", tuple(pv)), ("route", (len(ms.calls), len(ls.calls)))]
+        # the plain (non-callable, non-array) arguments handed to the library: method, tolerance, options, extra keywords
+        for c in ms.calls:
+            res.append(("minimize-args", c.get("method"), repr(c.get("tol")), repr(sorted((c.get("options") or {}).items())), repr(sorted((c.get("kw") or {}).keys()))))
+        for c in ls.calls:
+            res.append(("linprog-args", c.get("method"), repr(sorted(k for k in c.keys() if k not in ("c", "A_ub", "b_ub", "A_eq", "b_eq", "bounds", "method")))))
         vals = []
         for c in ms.calls:
             vals.append(c["fun"](xs))
@@ -264,10 +277,16 @@ def run_prefix(t, prefix, planted=False, deep=False):
 
     def path():
         clear_all()
+        # the target BEFORE the prefix (clean LRU caches): state outside the LRU caches that a prefix model leaves behind
+        # (module-level registries, mutated defaults) shows up as a difference to this observation
+        before = observe_model(trecipe, tval)
+        clear_all()
         for i in prefix:
             _, r, suf, rev = POOL[i][:4]
-            observe_model(r, valuation(r, suf), rev, redeclare=(len(POOL[i]) > 4 and POOL[i][4]))
+            observe_model(r, valuation(r, suf), rev, redeclare=(len(POOL[i]) > 4 and POOL[i][4]), solver_args=True)
         a = observe_model(trecipe, tval)
+        if prefix and not planted and not isinstance(a.get("solve"), Exception) and not isinstance(before.get("solve"), Exception) and a["solve"][0] != before["solve"][0]:
+            a["solve"] = ([("differs-from-the-solve-before-the-prefix", a["solve"][0], before["solve"][0])], a["solve"][1])
         clear_all()
         if planted:
             tv2 = dict(tval)
@@ -366,11 +385,16 @@ def replay(payload):
         for n in free_names(r)["vars"]:
             v[n] = tval.get(n, v[n])
         with np.errstate(all="ignore"):
-            observe_model(r, v, rev, redeclare=(len(POOL[i]) > 4 and POOL[i][4]))
+            observe_model(r, v, rev, redeclare=(len(POOL[i]) > 4 and POOL[i][4]), solver_args=True)
     with np.errstate(all="ignore"):
         oa = observe_model(trecipe, tval)
         clear_all()
         ob = observe_model(trecipe, tval)
+    if payload.get("ob") == "solve" and not isinstance(oa.get("solve"), Exception):
+        # a solve WITHOUT solver arguments must not inherit any from the prefix solves (iteration cap, tolerance)
+        for rec_ in oa["solve"][0]:
+            if rec_[0] == "minimize-args" and (rec_[2] != "None" or "maxiter" in rec_[3]):
+                return True, f"{ttag}: a plain solve() after the prefix {[POOL[i][0] for i in prefix]} hands the solver tol={rec_[2]}, options={rec_[3]} (left behind by an earlier model's solve)"
     name = payload.get("ob")
     for k in ([name] if name in oa else list(oa)):
         a, b = oa[k], ob[k]
